@@ -12,6 +12,8 @@ RHS = ["x", "x + f", "f:g", "x + (x|g)", "0 + f + x:f", "x - 1", "x + f + 0", "f
 RESP = [
     ("y", "numeric"), ("f", "cat"), ("g", "cat"), ("h", "cat"), ("g[t]", "level:g:t"), ("g['t']", "level:g:t"), ('f["a"]', "level:f:a"), ("h[o]", "level:h:o"),
     ("prop(s, n)", "prop:col"), ("prop(s, 7)", "prop:const"), ("p(s, n)", "prop:col"), ("proportion(s, n)", "prop:col"),
+    ("inc['>50K']", "level:inc:>50K"), ('inc["n/a"]', "level:inc:n/a"), ("inc['St. Louis']", "level:inc:St. Louis"), ("inc", "cat"),
+    ("prop(s, n)", "prop:col:big"),
     ("y:z", "refused"), ("y + z", "refused"), ("f:g", "refused"), ("y*z", "refused"), (None, "none"),
 ]
 
@@ -46,13 +48,22 @@ def harness(env, case):
     ri, rhs, flavour = case
     rtext, kind = RESP[ri]
     formula = rhs if rtext is None else f"{rtext} ~ {rhs}"
-    vars_ = [v for v in gen.used_vars(formula) if v not in ("s", "n")]
-    df, rows = gen.build_frame(env, vars_, flavour, "scramble", min_rows=4)
+    vars_ = [v for v in gen.used_vars(formula.replace("n/a", "")) if v not in ("s", "n")]
+    big = kind.endswith(":big")
+    if big:
+        # more than 256 rows: the first two rows symbolic, the others concrete counts (bounds the forks)
+        kind = kind[: -len(":big")]
+        if any(v in gen.LEVELS for v in vars_):
+            return
+    df, rows = gen.build_frame(env, vars_, flavour, "scramble", min_rows=260 if big else 4)
     n = len(df)
     if kind.startswith("prop"):
         # counts are integer-sorted symbols; only the first rows symbolic to bound the forks
         s = env.column("s", n, integer=True)
         t = env.column("n", n, integer=True)
+        if big:
+            s = np.array(list(s[:2]) + [i % 3 for i in range(2, n)], dtype=object if env.mode == "sym" else s.dtype)
+            t = np.array(list(t[:2]) + [3 + i % 5 for i in range(2, n)], dtype=object if env.mode == "sym" else t.dtype)
         df["s"] = pd.Series(s, dtype=object) if env.mode == "sym" else s
         df["n"] = pd.Series(t, dtype=object) if env.mode == "sym" else t
     try:
